@@ -166,7 +166,10 @@ CLAIMS["C12"] = dict(
           "route, tsr flag, scope, cached query, parameter length 0) whatever it held before; ServeHTTP resets the pooled context before the lookup and the handler is given "
           "exactly the current request, the selected route, its tsr flag and scope, and zero parameters on the unserved paths (loop invariants of the three Allow loops keep the "
           "context clean); CloneWith produces a context with its own parameter array holding the current values; Close returns a context to the pool only when its buffers are "
-          "within the router's limits. Not decided: Clone (reads the recorder through an interface the generator cannot refine), TeeWriter, concurrent reuse (pool semantics assumed)."),
+          "within the router's limits; Router.Lookup hands out a context showing exactly the current request, the selected route and its tsr flag; Clone returns a fresh context whose "
+          "recorder snapshots the CURRENT writer's status/size/written flag, with its own copy of the response headers, its own writer and its own parameter array holding the current "
+          "values (exposed a genuine defect - the clone showed an earlier request's status and headers - repaired). Not decided: that later writes through the original cannot reach the "
+          "clone's header map (http.Header.Clone is assumed to be a deep copy), TeeWriter, concurrent reuse (pool semantics assumed)."),
     design_ref="DESIGN.md section 4 C12, section 9",
     note=TRUSTED + " Assumed: sync.Pool Get returns either a fresh context from New or one previously Put (pool-discipline assume-at in ServeHTTP), url.ParseQuery extern. CloneWith/Close/copyWithResize partial correctness.")
 CLAIMS["C10"]["text"] += (" Routability half: bounded only - the routing stand-in (see C01) inserts every accepted pattern of its pool, builds requests by substituting values "
